@@ -98,7 +98,7 @@ def serde_arr(*relevant):
 # value and the round trip; C16 everything else is refused (and what is accepted is the decoding); C17 no panic
 SERDE_ARR_C15 = serde_arr("must be accepted", "must decode", "the value is", "decode(encode", "form is", "consumed", "is_ok()")
 SERDE_ARR_C16 = serde_arr("must be refused", "is refused", "the value is", "consumed")
-SERDE_ARR_C17 = serde_arr("overflow", "index out of bounds", "panic", "unwrap", "out of range", "attempt to", "dereference", "unreachable")
+SERDE_ARR_C17 = serde_arr("overflow", "index out of bounds", "panic", "unwrap", "out of range", "attempt to", "dereference", "unreachable", "placeholder message", "does not match destination")
 
 
 def leaf(*relevant):
@@ -221,7 +221,7 @@ PROPS = {
         "safety": True,
         # the checked (debug-assertion) build view of the payload decryption paths
         "thorough_units": [dict(gen("C17", props=["C17_debug.rs"]), view="debug", tags=["C17D"], needs_witness=True)],
-        "units": [leaf("overflow", "index out of bounds", "panic", "unwrap", "out of range", "attempt to"), ZIGZAG, SERDE_ARR_C17, gen("C17", props=["lib_bytes.rs", "C17.rs"])],
+        "units": [leaf("overflow", "index out of bounds", "panic", "unwrap", "out of range", "attempt to", "placeholder message"), ZIGZAG, SERDE_ARR_C17, gen("C17", props=["lib_bytes.rs", "C17.rs"])],
         "trusted_base": TB_ALGEBRA + ["A-TIME (see C10)", "L-SERDE: serde / serde_bare / serde_json decoders and the curve crates' parsers are not verified"],
         "hypotheses": [],
         "not_decided": ["serde-derived decoders (serde_bare / serde_json) and the curve crates' own parsers", "termination of the two probabilistic retry loops (zero scalar re-draw)"],
